@@ -154,6 +154,8 @@ HARNESSES = []
 QUICK = ('chain', 'two_params_named', 'shared_constant', 'two_summaries', 'summary_of_prior', 'summary_mixes_prior',
          'dup_parent', 'dup_parent_named')
 for pname in PROGRAMS:
+    if pname in ('indep_priors', 'fork_sims'):
+        continue        # C02's programs
     if len(PROGRAMS[pname]) >= 6:
         HARNESSES.append(H('gen_' + pname + '_given_first3', h_generate, dict(program=pname, limit_given=3),
                            bounds='program %s: %s; every subset of requested outputs x every subset of the first 3 nodes supplied'
